@@ -840,69 +840,44 @@ func replay(kind string, raw json.RawMessage) error {
 	return run.Decode(raw, check)
 }
 
-func TestProp(t *testing.T) {
-	rec := ev.New(prop)
-	defer run.Finish(t, rec)
-	run.Witnesses(rec, prop, replay)
-	_ = kf.Load() // no open finding restricts the generators of this property
+// stage runs one bounded enumeration: emit feeds cases to yield; the stage stops at its first
+// failing case (a broken termination rule makes every further cyclic case cost the full budget)
+// and is recorded as exhaustive only when it ran to completion.
+type stage struct {
+	rec           *ev.Rec
+	kind          string
+	shard, shards int
+	n             int
+	failed        bool
+}
 
-	shard, shards := run.Shard()
-	each := func(kind string) func(i int, c Case) bool {
-		return func(i int, c Case) bool {
-			if i%shards != shard {
-				return true
-			}
-			nt, cls := classify(c)
-			run.Each(rec, kind, c, nt, cls, check)
-			return true // keep going: later classes are still worth evaluating
-		}
+func (s *stage) yield(c Case) bool {
+	if s.failed {
+		return false
 	}
-
-	// (1) all graphs over the layout files {layouts/a, layouts/b, pages/a, layouts/base}
-	// (+ pages/b in the thorough tier): each absent or present naming none / a / b / base / p
-	// (the page itself) / zz (no such file), x every page option. The k pattern rotates with the index.
-	slots := []string{"layouts/a.vuego", "layouts/b.vuego", "pages/a.vuego", basePath}
-	if run.Thorough() {
-		slots = append(slots, "pages/b.vuego")
-	}
-	names := []string{"", "a", "b", "base", "p", "zz"}
-	pageNames := []string{"", "a", "b", "base", "p", "zz"}
-	n1 := enumGraphs(slots, names, pageNames, func(i int, c Case) bool {
-		applyKMask(&c, (i*11+i/37)%(4<<len(c.Files)))
-		if (i/3)%2 == 1 {
-			c.Via = "renderfile"
-		}
-		return each("enum")(i, c)
-	})
-	rec.Exhaustive(fmt.Sprintf("all layout graphs over %d files x 6 page options (%d graphs)", len(slots), n1))
-
-	// (2) all graphs over {layouts/a, pages/a, layouts/base} with names none / a / base
-	// x page {none, a, base} x every subset of k sources {page, Fill, each file} x both entry points.
-	slots3 := []string{"layouts/a.vuego", "pages/a.vuego", basePath}
-	n2 := 0
-	enumGraphs(slots3, []string{"", "a", "base"}, []string{"", "a", "base"}, func(i int, c Case) bool {
-		masks := 4 << len(c.Files)
-		if walk(c).out != oOK {
-			masks = 1 // no document is expected: the k sources cannot matter
-		}
-		for m := 0; m < masks; m++ {
-			for _, via := range []string{"", "renderfile"} {
-				d := c
-				d.Files = append([]File(nil), c.Files...)
-				applyKMask(&d, m)
-				d.Via = via
-				each("enumk")(n2, d)
-				n2++
-			}
-		}
+	i := s.n
+	s.n++
+	if i%s.shards != s.shard {
 		return true
-	})
-	rec.Exhaustive(fmt.Sprintf("all layout graphs over 3 files x 3 page options x all k-source subsets x 2 entry points (%d cases)", n2))
+	}
+	nt, cls := classify(c)
+	if !run.Each(s.rec, s.kind, c, nt, cls, check) {
+		s.failed = true
+		return false
+	}
+	return true
+}
 
-	// (3) synthetic long chains around the maximum, in layouts/ and next to the page, ending,
-	// closing into a cycle, or running into a missing file; page naming the head or reaching it
-	// through the default layout.
-	i3 := 0
+func (s *stage) done(what string) {
+	if !s.failed {
+		s.rec.Exhaustive(fmt.Sprintf("%s (%d cases)", what, s.n))
+	}
+}
+
+// longChains: synthetic chains around the maximum, in layouts/ and next to the page, ending,
+// closing into a cycle, or running into a missing file; the page naming the head or reaching
+// it through the default layout.
+func longChains(s *stage) {
 	for _, n := range []int{6, 20, 40, 80, 90, 99, 100, 101, 102, 150} {
 		for _, dir := range []string{"layouts", "pages"} {
 			for _, tail := range []string{"", "c001", "zz"} {
@@ -919,22 +894,23 @@ func TestProp(t *testing.T) {
 					} else {
 						c.Page.Layout = "c001"
 					}
-					if i3%2 == 1 {
+					if s.n%2 == 1 {
 						c.Via = "renderfile"
 					}
-					each("long")(i3, c)
-					i3++
+					if !s.yield(c) {
+						return
+					}
 				}
 			}
 		}
 	}
-	rec.Exhaustive(fmt.Sprintf("synthetic chains of 6..150 layouts (%d cases)", i3))
+}
 
-	// (4) chain shapes by construction: every length 0..5 x every placement of the links in
-	// layouts/ or next to the page x every ending (ends, missing, back to each earlier file
-	// including itself and the page) x named / default-applied first link; decoy files, an idle
-	// layouts/base.vuego, k sources and the entry point rotate with the index.
-	i4 := 0
+// shapes: chains by construction: every length 0..5 x every placement of the links in layouts/
+// or next to the page x every ending (ends, missing, back to each earlier file including itself
+// and the page) x named / default-applied first link; decoy files, an idle layouts/base.vuego,
+// the k sources and the entry point rotate with the index.
+func shapes(s *stage) {
 	for L := 0; L <= 5; L++ {
 		for dirs := 0; dirs < 1<<L; dirs++ {
 			for end := -3; end <= L; end++ {
@@ -943,30 +919,108 @@ func TestProp(t *testing.T) {
 						continue
 					}
 					if end >= 0 && L == 0 {
-						continue // the page naming itself is covered with L=0? no: needs a named link
+						continue // the page naming itself is emitted below
 					}
-					c := shapeCase(L, dirs, (i4*5+3)%(1<<L), viaDefault, end)
-					if !viaDefault && L > 0 && i4%3 == 0 {
+					i := s.n
+					c := shapeCase(L, dirs, (i*5+3)%(1<<L), viaDefault, end)
+					if !viaDefault && L > 0 && i%3 == 0 {
 						c.Files = append(c.Files, File{Path: basePath, Layout: "zz"}) // present but not due
 					}
-					applyKMask(&c, (i4*7+i4/5)%(4<<min(len(c.Files), L)))
-					if i4%2 == 1 {
+					applyKMask(&c, (i*7+i/5)%(4<<min(len(c.Files), L)))
+					if i%2 == 1 {
 						c.Via = "renderfile"
 					}
-					each("shape")(i4, c)
-					i4++
+					if !s.yield(c) {
+						return
+					}
 				}
 			}
 		}
 	}
-	// the page naming itself
 	for _, via := range []string{"", "renderfile"} {
-		each("shape")(i4, Case{Page: File{Path: "pages/p.vuego", Layout: "p"}, Via: via})
-		i4++
+		if !s.yield(Case{Page: File{Path: "pages/p.vuego", Layout: "p"}, Via: via}) {
+			return
+		}
 	}
-	rec.Exhaustive(fmt.Sprintf("chain shapes: lengths 0..5 x placements x endings x default/named (%d cases)", i4))
+}
 
-	// (5) random graphs over up to 6 files with spellings, collisions and long tails
+// allGraphs: every graph over the layout files {layouts/a, layouts/b, pages/a, layouts/base}
+// (+ pages/b in the thorough tier): each absent or present naming none / a / b / base / zz (no
+// such file) (thorough: also p, the page itself), x every page option none / a / b / base / p / zz.
+// k sources and entry point rotate.
+func allGraphs(s *stage, slots []string) {
+	pageNames := []string{"", "a", "b", "base", "p", "zz"}
+	names := pageNames
+	if !run.Thorough() {
+		// quick tier: layout files do not name the page (cycles through the page are covered by
+		// the shape stage and by the random stage); the page itself still may
+		names = []string{"", "a", "b", "base", "zz"}
+	}
+	enumGraphs(slots, names, pageNames, func(_ int, c Case) bool {
+		i := s.n
+		applyKMask(&c, (i*11+i/37)%(4<<len(c.Files)))
+		if (i/3)%2 == 1 {
+			c.Via = "renderfile"
+		}
+		return s.yield(c)
+	})
+}
+
+// allGraphsK: every graph over {layouts/a, pages/a, layouts/base} with names none / a / base
+// x page {none, a, base} x every subset of k sources {page, Fill, each file} x both entry points.
+func allGraphsK(s *stage) {
+	names := []string{"", "a", "base"}
+	enumGraphs([]string{"layouts/a.vuego", "pages/a.vuego", basePath}, names, names, func(_ int, c Case) bool {
+		masks := 4 << len(c.Files)
+		if walk(c).out != oOK {
+			masks = 1 // no document is expected: the k sources cannot matter
+		}
+		for m := 0; m < masks; m++ {
+			for _, via := range []string{"", "renderfile"} {
+				d := c
+				d.Files = append([]File(nil), c.Files...)
+				applyKMask(&d, m)
+				d.Via = via
+				if !s.yield(d) {
+					return false
+				}
+			}
+		}
+		return true
+	})
+}
+
+func TestProp(t *testing.T) {
+	rec := ev.New(prop)
+	defer run.Finish(t, rec)
+	run.Witnesses(rec, prop, replay)
+	_ = kf.Load() // no open finding restricts the generators of this property
+
+	shard, shards := run.Shard()
+	st := func(kind string) *stage { return &stage{rec: rec, kind: kind, shard: shard, shards: shards} }
+
+	// cheap, targeted stages first
+	s := st("long")
+	longChains(s)
+	s.done("synthetic chains of 6..150 layouts")
+
+	s = st("shape")
+	shapes(s)
+	s.done("chain shapes: lengths 0..5 x placements x endings x default/named")
+
+	slots := []string{"layouts/a.vuego", "layouts/b.vuego", "pages/a.vuego", basePath}
+	if run.Thorough() {
+		slots = append(slots, "pages/b.vuego")
+	}
+	s = st("enum")
+	allGraphs(s, slots)
+	s.done(fmt.Sprintf("all layout graphs over %d layout files x 6 page options", len(slots)))
+
+	s = st("enumk")
+	allGraphsK(s)
+	s.done("all layout graphs over 3 files x 3 page options x all k-source subsets x 2 entry points")
+
+	// random graphs over up to 6 files with spellings, collisions and long tails
 	run.Rapid(t, rec, "random", genCase, classify, check)
 }
 
